@@ -1156,6 +1156,11 @@ impl SolarDay {
       m = m.next(-1);
       days += m.get_day_count() as isize;
     }
+    // 农历月起点可能早于公历同月超过一个月，需要继续向后找
+    while days >= m.get_day_count() as isize {
+      days -= m.get_day_count() as isize;
+      m = m.next(1);
+    }
     LunarDay::from_ymd(m.get_year(), m.get_month_with_leap(), (days + 1) as usize)
   }
 
